@@ -39,10 +39,23 @@
 class MemLeakScopedMutex
 {
 public:
-    MemLeakScopedMutex() : lock(MemoryLeakWarningPlugin::getGlobalDetector()->getMutex()) { }
+    MemLeakScopedMutex() : lock(MemoryLeakWarningPlugin::getGlobalDetector()->getMutex()) { held_ = true; }
+    ~MemLeakScopedMutex() { held_ = false; }
+
+    /* A misuse reported from inside a thread-safe wrapper leaves the wrapper by longjmp, which skips the destructor */
+    static void releaseBeforeNonLocalExit()
+    {
+        if (held_) {
+            held_ = false;
+            MemoryLeakWarningPlugin::getGlobalDetector()->getMutex()->Unlock();
+        }
+    }
 private:
+    static bool held_; /* only written while the detector mutex is held */
     ScopedMutexLock lock;
 };
+
+bool MemLeakScopedMutex::held_ = false;
 
 static void* threadsafe_mem_leak_malloc(size_t size, const char* file, size_t line)
 {
@@ -545,7 +558,11 @@ public:
     virtual void fail(char* fail_string) CPPUTEST_OVERRIDE
     {
         UtestShell* currentTest = UtestShell::getCurrent();
-        currentTest->failWith(FailFailure(currentTest, currentTest->getName().asCharString(), currentTest->getLineNumber(), fail_string), UtestShell::getCurrentTestTerminatorWithoutExceptions());
+        FailFailure failure(currentTest, currentTest->getName().asCharString(), currentTest->getLineNumber(), fail_string);
+#if CPPUTEST_USE_MEM_LEAK_DETECTION
+        MemLeakScopedMutex::releaseBeforeNonLocalExit();
+#endif
+        currentTest->failWith(failure, UtestShell::getCurrentTestTerminatorWithoutExceptions());
     } // LCOV_EXCL_LINE
 };
 
